@@ -224,7 +224,7 @@ fn run_exp_structural(f: u64, attempts: u32) {
     kani::cover!(pow_fits(f, attempts.saturating_sub(1)) || saw_overflow, "power left u64 with a non-zero step");
 }
 
-const STEP_MENU: [(u64, u32); 8] = [
+const STEP_MENU: [(u64, u32); 9] = [
     (0, 0),
     (0, 1),
     (0, 999_999_999),
@@ -232,6 +232,7 @@ const STEP_MENU: [(u64, u32); 8] = [
     (2, 500_000_000),
     (3600, 0),
     (1 << 40, 7),
+    (u64::MAX / 2, 0),
     (u64::MAX, 999_999_999),
 ];
 
